@@ -863,7 +863,7 @@ def run_nnxts_case(ctx, i):
 # (c) metrics
 
 METRIC_KINDS = ['avg1', 'avg2', 'avg3_py', 'avg_int', 'wf1', 'wf2', 'wf_py', 'acc_mc', 'acc_mc3', 'acc_bin', 'acc_bin2', 'multi',
-                'avg_f16', 'wf_f16', 'avg_bigint']
+                'avg_f16', 'wf_f16', 'avg_bigint', 'avg_np64', 'wf_np64']
 N_MAX = 6
 
 
@@ -880,6 +880,10 @@ def gen_stream(kind, nprng, n, variant):
     elif kind in ('avg_f16', 'wf_f16'):
       # half-precision values whose batch sums leave the float16 range (all exactly representable: multiples of 32 below 32768)
       it['values'] = (nprng.integers(500, 1000, (3,)) * 32).astype(np.float16)
+    elif kind in ('avg_np64', 'wf_np64'):
+      # host-side NumPy values in 64-bit integers outside the int32 range (nanosecond timings, byte counts)
+      dt = [np.int64, np.uint64][variant % 2]
+      it['values'] = nprng.integers(2 ** 31 + 5, 2 ** 32 - 5, (2,)).astype(dt)
     elif kind == 'avg_bigint':
       it['values'] = nprng.integers(2 ** 29, 2 ** 30, (2,)).astype(np.int32)
     elif kind in ('avg2', 'wf2'):
@@ -910,9 +914,9 @@ def gen_stream(kind, nprng, n, variant):
 
 def make_metric(kind, thr, variant):
   from flax import nnx
-  if kind in ('avg1', 'avg2', 'avg_int', 'avg_f16', 'avg_bigint'):
+  if kind in ('avg1', 'avg2', 'avg_int', 'avg_f16', 'avg_bigint', 'avg_np64'):
     return nnx.metrics.Average()
-  if kind == 'wf_f16':
+  if kind in ('wf_f16', 'wf_np64'):
     return nnx.metrics.Welford()
   if kind == 'avg3_py':
     return nnx.metrics.Average('loss')
@@ -950,6 +954,9 @@ def feed(kind, metric, batch, variant, bi):
     else:
       val = jnp.asarray(stack('values'))
     metric.update(loss=val, ignored=123)
+    return
+  if kind in ('avg_np64', 'wf_np64'):
+    metric.update(values=stack('values'))      # the NumPy array itself, as a host-side logging loop passes it
     return
   if kind in ('avg1', 'avg2', 'avg_int', 'wf1', 'wf2', 'avg_f16', 'wf_f16', 'avg_bigint'):
     metric.update(values=jnp.asarray(stack('values')))
@@ -989,9 +996,9 @@ def ref_stat(kind, items, thr):
     hits = np.concatenate([((np.asarray(it['logits']) >= np.float32(thr)) == (it['labels'] > 0)).ravel() for it in items])
     return float(np.mean(hits))
 
-  if kind in ('avg1', 'avg2', 'avg3_py', 'avg_int', 'avg_f16', 'avg_bigint'):
+  if kind in ('avg1', 'avg2', 'avg3_py', 'avg_int', 'avg_f16', 'avg_bigint', 'avg_np64'):
     return dict(avg=avg('values'))
-  if kind in ('wf1', 'wf2', 'wf_py', 'wf_f16'):
+  if kind in ('wf1', 'wf2', 'wf_py', 'wf_f16', 'wf_np64'):
     return welford('values')
   if kind in ('acc_mc', 'acc_mc3'):
     return dict(acc=acc_mc())
@@ -1006,9 +1013,9 @@ def ref_stat(kind, items, thr):
 def extract(kind, res):
   def wf(s):
     return dict(mean=s.mean, std=s.standard_deviation, sem=s.standard_error_of_mean)
-  if kind in ('avg1', 'avg2', 'avg3_py', 'avg_int', 'avg_f16', 'avg_bigint'):
+  if kind in ('avg1', 'avg2', 'avg3_py', 'avg_int', 'avg_f16', 'avg_bigint', 'avg_np64'):
     return dict(avg=res)
-  if kind in ('wf1', 'wf2', 'wf_py', 'wf_f16'):
+  if kind in ('wf1', 'wf2', 'wf_py', 'wf_f16', 'wf_np64'):
     return wf(res)
   if kind in ('acc_mc', 'acc_mc3', 'acc_bin', 'acc_bin2'):
     return dict(acc=res)
@@ -1052,7 +1059,8 @@ MECH = {'avg1': 'metric.average', 'avg2': 'metric.average:multidim', 'avg3_py': 
         'acc_mc3': 'metric.accuracy:multiclass_extra_dims', 'acc_bin': 'metric.accuracy:binary',
         'acc_bin2': 'metric.accuracy:binary_extra_dims', 'multi': 'metric.multimetric',
         'avg_f16': 'metric.average:value_dtype_accumulation', 'wf_f16': 'metric.welford:value_dtype_accumulation',
-        'avg_bigint': 'metric.average:value_dtype_accumulation'}
+        'avg_bigint': 'metric.average:value_dtype_accumulation', 'avg_np64': 'metric.average:numpy_int64_values',
+        'wf_np64': 'metric.welford:numpy_int64_values'}
 
 
 def run_metric_empty_case(ctx, i):
